@@ -102,6 +102,15 @@ fn gen_prefix(rng: &mut Rng) -> String {
         rng.pick(&PREFIXES).to_string()
     }
 }
+/// a processing-instruction target; now and then one in a namespace (cannot be serialised:
+/// serialisation has to refuse it), which C10's profile of representable content leaves out
+fn pi_target(rng: &mut Rng, prof: &Profile) -> Nm {
+    if !prof.representable_ns_only && rng.pct(3) {
+        Nm::new(rng.pick_str(&PI_TARGETS), rng.pick_str(&URIS))
+    } else {
+        Nm::new(rng.pick_str(&PI_TARGETS), "")
+    }
+}
 fn gen_uri(rng: &mut Rng) -> String {
     if rng.pct(5) {
         String::new()
@@ -310,6 +319,29 @@ pub fn gen_motif(m: &Model, rng: &mut Rng, home: &[Lid]) -> Option<Vec<Op>> {
     Some(ops)
 }
 
+/// another client builds text from pieces: consolidation off, two or three text nodes next to each
+/// other, consolidation on again — the store then holds adjacent text nodes while consolidation
+/// is on, and every later call meets that state
+pub fn gen_split_text_motif(m: &Model, rng: &mut Rng, home: &[Lid]) -> Option<Vec<Op>> {
+    if !m.cons {
+        return None;
+    }
+    let p = Picker::new(m, home, 50);
+    let e = p.container(rng)?;
+    let mut ops = vec![Op::SetConsolidation { on: false }];
+    for _ in 0..rng.range(2, 3) {
+        ops.push(Op::AppendText { p: e, s: gen_text(rng) });
+    }
+    if rng.pct(30) {
+        if let Some(e2) = p.kind(rng, K::Elem) {
+            ops.push(Op::AppendText { p: e2, s: gen_text(rng) });
+            ops.push(Op::AppendText { p: e2, s: gen_text(rng) });
+        }
+    }
+    ops.push(Op::SetConsolidation { on: true });
+    Some(ops)
+}
+
 fn attr_key(m: &Model, e: Lid, rng: &mut Rng) -> Nm {
     if rng.pct(25) {
         // a name in a namespace that has a usable prefix in scope: the element stays serialisable
@@ -387,7 +419,7 @@ fn try_gen_op(m: &Model, rng: &mut Rng, prof: &Profile, home: &[Lid]) -> Option<
             4 | 5 => Op::NewText { s: gen_text(rng) },
             6 => Op::NewComment { s: if rng.pct(8) && !prof.representable_ns_only { "a--b".to_string() } else { rng.pick(&COMMENTS).to_string() } },
             7 => Op::NewPI {
-                target: Nm::new(rng.pick_str(&PI_TARGETS), ""),
+                target: pi_target(rng, prof),
                 data: if rng.pct(60) { Some(rng.pick(&PI_DATA).to_string()) } else { None },
             },
             8 => Op::NewAttr { name: gen_name(rng), value: rng.pick_str(&ATTR_VALUES[..8]).to_string() },
@@ -647,7 +679,7 @@ fn try_gen_op(m: &Model, rng: &mut Rng, prof: &Profile, home: &[Lid]) -> Option<
                     if rng.pct(50) {
                         Op::PISetData { n, data: if rng.pct(70) { Some(rng.pick(&PI_DATA).to_string()) } else { None } }
                     } else {
-                        Op::PISetTarget { n, target: Nm::new(rng.pick_str(&PI_TARGETS), "") }
+                        Op::PISetTarget { n, target: pi_target(rng, prof) }
                     }
                 }
                 K::Attr => Op::AttrNodeSetValue { n, value: rng.pick_str(&ATTR_VALUES[..8]).to_string() },
@@ -663,7 +695,7 @@ fn try_gen_op(m: &Model, rng: &mut Rng, prof: &Profile, home: &[Lid]) -> Option<
                 3 => Op::AppendComment { p: pn, s: if rng.pct(12) && !prof.representable_ns_only { "a--b".to_string() } else { rng.pick(&COMMENTS).to_string() } },
                 _ => Op::AppendPI {
                     p: pn,
-                    target: Nm::new(rng.pick_str(&PI_TARGETS), ""),
+                    target: pi_target(rng, prof),
                     data: if rng.pct(60) { Some(rng.pick(&PI_DATA).to_string()) } else { None },
                 },
             })
